@@ -82,6 +82,10 @@ def recs(circ):
                 raise Fail(f"gate {g.name} on {g.target} still carries the symbolic parameter {p!r} after build/update",
                            sig="symbolic-parameter-left")
             p = None
+        if p is not None and np.iscomplexobj(p):
+            if complex(p).imag != 0.0:
+                raise Fail(f"gate {g.name} on {g.target} carries the complex parameter {p!r}", sig="complex-gate-parameter")
+            p = complex(p).real
         out.append({"n": g.name, "t": [int(t) for t in g.target], "c": [int(c) for c in g.control] if g.control else None,
                     "p": None if p is None else float(p)})
     return out
@@ -115,6 +119,7 @@ def selftest():
     w = R.run([{"n": "H", "t": [0]}, {"n": "CNOT", "t": [1], "c": [0]}, {"n": "RZ", "t": [0], "p": 2 * math.pi}], 2)   # = -v
     assert abs(fidelity(v, w) - 1) < 1e-12 and fidelity(v, R.zero_state(2)) < 0.51
     assert expand({"k": "cycle", "base": [1.0, 0.0], "zero": [2]}, 5, None) == [1.0, 0.0, 0.0, 0.0, 1.0]
+    assert expand({"k": "cycle", "base": [1.0, 0.0], "drift": 0.5, "zero": []}, 4, None) == [1.0, 0.0, 2.0, 0.0]
     assert expand({"k": "prev", "base": [7.0], "zero": [0], "flip": [1], "set": [2]}, 3, [1.0, 2.0, 3.0]) == [0.0, -2.0, 7.0]
 
 
@@ -236,7 +241,7 @@ def family_configs(fam, tier):
                     c = {"a": fam, "mol": m, "map": mp, "utd": utd}
                     out.append(c)
                     if fam == "QMF" and mp == "jw":
-                        out.append(dict(c, init={"init_params": "vacuum", "N": None, "Sz": None}))
+                        out.append(dict(c, init={"init_params": "vacuum"}))
                     if fam in ("QCC", "ILC") and mp == "jw" and m != "H2":
                         out.append(dict(c, max=2))
     elif fam == "pUCCD":
@@ -270,7 +275,9 @@ def expand(rec, n, prev):
         for j in rec.get("flip", []):
             th[j % n] = -th[j % n]
     else:
-        th = [base[i % len(base)] for i in range(n)]
+        # exact zeros stay exact zeros; a non-zero drift makes every entry distinct (periodic vectors would hide offset errors)
+        drift = float(rec.get("drift", 0.0))
+        th = [base[i % len(base)] + (drift * i if base[i % len(base)] != 0.0 else 0.0) for i in range(n)]
     for j in rec.get("zero", []):
         th[j % n] = 0.0
     return th
@@ -278,51 +285,57 @@ def expand(rec, n, prev):
 
 def values():
     two_pi = 2 * math.pi
+    plain = st.floats(-math.pi, math.pi, allow_nan=False)
     return st.one_of(
-        st.just(0.0),
-        st.floats(-math.pi, math.pi, allow_nan=False),
+        plain, plain, plain,
         st.tuples(st.floats(0.05, 3.0), st.integers(1, 3), st.sampled_from([-1.0, 1.0])).map(lambda t: t[2] * (t[0] + two_pi * t[1])),
-        st.sampled_from([1e-9, -1e-9, 1e-7, -1e-5, 0.1, -0.1, 0.5, 1.0, -1.0]),
+        st.sampled_from([0.0, 0.0, 1e-9, -1e-9, 1e-7, -1e-5, 0.1, -0.1, 0.5, 1.0, -1.0]),
         st.integers(-8, 8).map(lambda j: j * math.pi / 2),
     )
 
 
-def recipes():
+@st.composite
+def recipes(draw):
+    """Explicit selector integers give the intended weights (one_of over repeated strategies does not)."""
     idx = st.integers(0, 63)
-    base = st.lists(values(), min_size=1, max_size=6)
-    return st.one_of(
-        st.fixed_dictionaries({"k": st.just("cycle"), "base": base, "zero": st.lists(idx, max_size=4)}),
-        st.fixed_dictionaries({"k": st.just("cycle"), "base": base, "zero": st.lists(idx, max_size=4)}),
-        st.just({"k": "zeros"}),
-        st.fixed_dictionaries({"k": st.just("prev"), "base": base, "zero": st.lists(idx, max_size=3), "flip": st.lists(idx, max_size=3),
-                               "set": st.lists(idx, max_size=3)}),
-    )
+    sel = draw(st.integers(0, 9))
+    if sel == 0:
+        return {"k": "zeros"}
+    base = draw(st.lists(values(), min_size=1, max_size=6))
+    few = draw(st.lists(idx, max_size=3)) if draw(st.integers(0, 2)) == 0 else []
+    if sel <= 5:
+        return {"k": "cycle", "base": base, "drift": draw(st.sampled_from([0.0, 0.013, -0.07, 0.211, 0.5])), "zero": few}
+    if sel <= 7:     # previous vector with some entries zeroed / re-set (support change on purpose)
+        return {"k": "prev", "base": base, "zero": draw(st.lists(idx, min_size=1, max_size=3)), "flip": draw(st.lists(idx, max_size=2)),
+                "set": draw(st.lists(idx, max_size=3))}
+    return {"k": "prev", "base": base, "zero": [], "flip": draw(st.lists(idx, min_size=1, max_size=3)), "set": draw(st.lists(idx, max_size=3))}
 
 
-def op_records(fam, first):
-    build = st.fixed_dictionaries({"op": st.just("build"), "th": recipes(), "np": st.booleans()})
+@st.composite
+def op_records(draw, fam, first):
+    flag = draw(st.booleans())
     if first:
-        if fam == "VarCirc":   # the circuit exists from construction: a history may start with an update
-            return st.one_of(build, st.fixed_dictionaries({"op": st.just("update"), "th": recipes(), "np": st.booleans()}))
-        return build
-    opts = [(5, st.fixed_dictionaries({"op": st.just("update"), "th": recipes(), "np": st.booleans()})),
-            (1, build),
-            (1, st.fixed_dictionaries({"op": st.just("build_kw"), "kw": st.integers(0, 7)})),
-            (1, st.fixed_dictionaries({"op": st.just("bad_update"), "d": st.sampled_from([-2, -1, 1, 2, 5]), "th": recipes(), "np": st.booleans()})),
-            (1, st.fixed_dictionaries({"op": st.just("bad_build"), "d": st.sampled_from([-1, 1, 3]), "th": recipes(), "np": st.booleans()}))]
-    if fam == "ADAPT":
-        opts.append((4, st.fixed_dictionaries({"op": st.just("add_op"), "i": st.integers(0, 199)})))
-    pool = []
-    for w, s in opts:
-        pool += [s] * w
-    return st.one_of(*pool)
+        kind = "update" if (fam == "VarCirc" and draw(st.integers(0, 2)) == 0) else "build"   # VarCirc: circuit exists from construction
+        return {"op": kind, "th": draw(recipes()), "np": flag}
+    sel = draw(st.integers(0, 17 if fam == "ADAPT" else 10))
+    if sel <= 5:
+        return {"op": "update", "th": draw(recipes()), "np": flag}
+    if sel == 6:
+        return {"op": "build", "th": draw(recipes()), "np": flag}
+    if sel == 7:
+        return {"op": "build_kw", "kw": draw(st.integers(0, 7))}
+    if sel in (8, 9):
+        return {"op": "bad_update", "d": draw(st.sampled_from([-2, -1, 1, 2, 5])), "th": draw(recipes()), "np": flag}
+    if sel == 10:
+        return {"op": "bad_build", "d": draw(st.sampled_from([-1, 1, 3])), "th": draw(recipes()), "np": flag}
+    return {"op": "add_op", "i": draw(st.integers(0, 199))}
 
 
 @st.composite
 def histories(draw, fam, cfg_strategy, max_ops):
     cfg = draw(cfg_strategy)
     ops = [draw(op_records(fam, True))]
-    ops += draw(st.lists(op_records(fam, False), min_size=1, max_size=max_ops - 1))
+    ops += draw(st.lists(op_records(fam, False), min_size=2, max_size=max_ops - 1))
     return {"cfg": cfg, "ops": ops}
 
 
@@ -347,6 +360,34 @@ def reference_state(cfg, obj, n):
         v[jw_reference_index(nq, na, nb, cfg["utd"]) << (n - nq)] = 1
         return v, "independent"
     return state_of(obj.prepare_reference_state(), n), "own-reference-circuit"
+
+
+def vsqs_expected(cfg, obj, th, n):
+    """VSQS state from its documented definition: reference, exp(-i dt H_init), then per interval exp(-i dt a_i H_init)
+    exp(-i dt b_i H_final) [exp(-i dt c_i H_nav)], finally exp(-i dt H_final); every exponential is the first- or second-order
+    (symmetric) Trotter product over the operator's terms in the order stored by the ansatz (h_*_list).  Needed because an
+    ansatz whose build_circuit delegates to update_var_params cannot be told apart from its fresh build by the differential oracle."""
+    if cfg.get("mol"):
+        psi = state_of(obj.prepare_reference_state(), n)
+    else:
+        psi = R.run([{"n": "X", "t": [q]} for q in cfg["refx"]], n)
+    order, dt = cfg["order"], cfg["time"] / cfg["iv"]
+
+    def block(psi, lst, t):
+        seq = [(w, c, t) for w, c in lst] if order == 1 else [(w, c, t / 2) for w, c in lst] + [(w, c, t / 2) for w, c in reversed(lst)]
+        for w, c, tt in seq:
+            ang = float(np.real(c)) * tt
+            psi = math.cos(ang) * psi - 1j * math.sin(ang) * R.apply_pauli_term(psi, w, n)
+        return psi
+
+    stride = 3 if cfg.get("nav") else 2
+    psi = block(psi, obj.h_init_list, dt)
+    for i in range(cfg["iv"] - 1):
+        psi = block(psi, obj.h_init_list, th[stride * i] * dt)
+        psi = block(psi, obj.h_final_list, th[stride * i + 1] * dt)
+        if cfg.get("nav"):
+            psi = block(psi, obj.h_nav_list, th[stride * i + 2] * dt)
+    return block(psi, obj.h_final_list, dt)
 
 
 def run_history(ctx, case):
@@ -386,6 +427,11 @@ def run_history(ctx, case):
             raise Fail(f"{a}: after {how} the circuit's state differs from a fresh build_circuit(theta): fidelity {f:.12f}; "
                        f"theta={list(th)}; variational gates {len(obj.circuit._variational_gates)} vs fresh "
                        f"{len(fresh.circuit._variational_gates)}", sig=f"update-neq-rebuild:{tag}", theta=list(th), fidelity=f, after=how)
+        if a == "VSQS":
+            fs = fidelity(got, vsqs_expected(cfg, obj, th, n))
+            if abs(fs - 1) > 1e-8:
+                raise Fail(f"VSQS: after {how} the circuit's state differs from the Trotter product it documents: fidelity {fs:.12f}; "
+                           f"theta={list(th)}", sig="vsqs-not-trotter-product", theta=list(th), fidelity=fs, after=how)
         if a in EXCITATION_BASED and len(th) > 0 and all(x == 0.0 for x in th):
             exp, kind = reference_state(cfg, obj, n)
             f0 = fidelity(got, exp)
@@ -423,10 +469,13 @@ def run_history(ctx, case):
             if obj.n_var_params != n:
                 raise Fail(f"{a}: n_var_params changed from {n} to {obj.n_var_params} by {kind}", sig=f"n_var_params-changed:{a}")
             pat = tuple(x == 0.0 for x in th)
-            if prev_was_accept and patterns and patterns[-1] != pat and len(patterns[-1]) == len(pat) and kind == "update":
-                support_change = True
-                labels.add("support-change")
-                labels.add("zero->nonzero" if any(p and not c for p, c in zip(patterns[-1], pat)) else "nonzero->zero")
+            if prev_was_accept and patterns and len(patterns[-1]) == len(pat) and kind == "update":
+                if patterns[-1] != pat:
+                    support_change = True
+                    labels.add("support-change")
+                    labels.add("zero->nonzero" if any(p and not c for p, c in zip(patterns[-1], pat)) else "nonzero->zero")
+                else:
+                    labels.add("same-support-update")
             patterns.append(pat)
             prev_was_accept = True
             theta = th
@@ -543,18 +592,20 @@ EXCLUSIONS = {
 }
 
 
-def _family_part(ctx, fam, name=None):
-    cfgs = family_configs(fam, ctx.tier)
+def _family_part(ctx, fam, name=None, keep=None, frac=1.0):
+    cfgs = [c for c in family_configs(fam, ctx.tier) if keep is None or keep(c)]
     max_ops = 6 if ctx.tier == "quick" else 10
     ctx.search(name or fam.lower(), histories(fam, st.sampled_from(cfgs), max_ops), lambda case: run_history(ctx, case),
-               exclusions=EXCLUSIONS)
+               exclusions=EXCLUSIONS, frac=frac)
 
 
 # ------------------------------------------------------------------------------------------------ parts
 
-@part("uccsd", quick=72, thorough=2400)
+@part("uccsd", quick=80, thorough=2400)
 def p_uccsd(ctx):
-    _family_part(ctx, "UCCSD")
+    _family_part(ctx, "UCCSD", "uccsd_closed", keep=lambda c: c["mol"] in ("H2", "LiH", "H4"), frac=0.4)
+    _family_part(ctx, "UCCSD", "uccsd_rohf", keep=lambda c: c["mol"] == "H3", frac=0.3)
+    _family_part(ctx, "UCCSD", "uccsd_uhf", keep=lambda c: c["mol"] == "H4uhf", frac=0.3)
 
 
 @part("rucc", quick=24, thorough=400)
@@ -564,12 +615,14 @@ def p_rucc(ctx):
 
 @part("upccgsd", quick=72, thorough=2400)
 def p_upccgsd(ctx):
-    _family_part(ctx, "UpCCGSD")
+    _family_part(ctx, "UpCCGSD", "upccgsd_k12", keep=lambda c: c["k"] <= 2, frac=0.35)
+    _family_part(ctx, "UpCCGSD", "upccgsd_k34", keep=lambda c: c["k"] >= 3, frac=0.65)
 
 
 @part("uccgd", quick=32, thorough=800)
 def p_uccgd(ctx):
-    _family_part(ctx, "UCCGD")
+    _family_part(ctx, "UCCGD", "uccgd", keep=lambda c: c["map"] != "scbk", frac=0.6)
+    _family_part(ctx, "UCCGD", "uccgd_scbk", keep=lambda c: c["map"] == "scbk", frac=0.4)   # encoding that merges words of different excitations
 
 
 @part("hea", quick=40, thorough=1200)
